@@ -23,6 +23,56 @@ use crate::simrun::Event;
 use crate::simrun::Globs;
 use crate::simrun::SimFlag;
 
+thread_local! {
+    static ZSTATE: std::cell::RefCell<SimFlag> = std::cell::RefCell::new(SimFlag::counting());
+}
+
+/// The same flag as `SimFlag`, but as a zero-sized type whose state lives elsewhere — the
+/// usual shape of a Ctrl-C flag (a unit struct reading a static).  Nothing may depend on the
+/// concrete type or size of the caller's flag.
+struct ZstFlag;
+
+impl ZstFlag {
+    fn arm(f: SimFlag) {
+        ZSTATE.with(|z| *z.borrow_mut() = f);
+    }
+    fn polls() -> (u64, u64) {
+        ZSTATE.with(|z| {
+            let z = z.borrow();
+            (z.polls.get(), z.polls_after_fail.get())
+        })
+    }
+}
+
+impl tree_sitter_graph::CancellationFlag for ZstFlag {
+    fn check(&self, at: &'static str) -> Result<(), tree_sitter_graph::CancellationError> {
+        ZSTATE.with(|z| z.borrow().check(at))
+    }
+}
+
+/// Runs one execution with either representation of the flag; returns (outcome, polls, polls
+/// after the first failure).
+fn exec_with_flag(
+    zst: bool,
+    f: SimFlag,
+    file: &tree_sitter_graph::ast::File,
+    tree: &tree_sitter::Tree,
+    source: &str,
+    lazy: bool,
+    fns: &tree_sitter_graph::functions::Functions,
+    vars: &tree_sitter_graph::Variables,
+) -> (Outcome, u64, u64) {
+    if zst {
+        ZstFlag::arm(f);
+        let o = simrun::execute(file, tree, source, lazy, fns, vars, &ZstFlag);
+        let (p, a) = ZstFlag::polls();
+        (o, p, a)
+    } else {
+        let o = simrun::execute(file, tree, source, lazy, fns, vars, &f);
+        (o, f.polls.get(), f.polls_after_fail.get())
+    }
+}
+
 pub fn meta() -> CheckMeta {
     CheckMeta {
         prop: "C11",
@@ -54,6 +104,7 @@ distinct = distinct hash of (program text, source text, mode).",
             "probe.cancel_inside_nested_block",
             "probe.template_cases",
             "probe.cancelled_after_graph_mutation",
+            "probe.zero_sized_flag_cases",
         ],
         fault_kinds: vec!["cancel_at_k", "hash_keys"],
     }
@@ -73,6 +124,8 @@ pub struct Case {
     /// per-case cap on exhaustively enumerated k
     pub k_cap: u64,
     pub origin: String,
+    /// the caller's flag is a zero-sized type (state kept elsewhere)
+    pub zst_flag: bool,
 }
 
 impl Case {
@@ -87,6 +140,7 @@ impl Case {
             "tick_rule": self.tick_rule,
             "k_cap": self.k_cap,
             "origin": self.origin,
+            "zst_flag": self.zst_flag,
         })
     }
     pub fn from_json(j: &J) -> Case {
@@ -100,6 +154,7 @@ impl Case {
             tick_rule: j["tick_rule"].as_bool().unwrap_or(false),
             k_cap: j["k_cap"].as_u64().unwrap_or(100_000),
             origin: j["origin"].as_str().unwrap_or("").to_string(),
+            zst_flag: j["zst_flag"].as_bool().unwrap_or(false),
         }
     }
 }
@@ -164,12 +219,10 @@ pub fn check_case(case: &Case, only_k: Option<u64>) -> (CaseStats, Option<Found>
     st.outcome_class = ref_out.class();
 
     // counting run
-    let flag = SimFlag::counting();
     simrun::log_clear();
-    let cnt_out = simrun::execute(&file, &tree, &case.source, case.lazy, &fns, &vars, &flag);
+    let (cnt_out, p, _) = exec_with_flag(case.zst_flag, SimFlag::counting(), &file, &tree, &case.source, case.lazy, &fns, &vars);
     let cnt_log = simrun::log_take();
     st.executions += 1;
-    let p = flag.polls.get();
     st.polls = p;
     st.ticks = cnt_log.iter().filter(|e| matches!(e, Event::Tick(..))).count() as u64;
     let mut th = rng::hash_str(&format!("{:?}", cnt_out));
@@ -292,9 +345,8 @@ this program executes by construction require at least {}",
         if k == 0 || k > p {
             continue;
         }
-        let flag = SimFlag::failing_from(k);
         simrun::log_clear();
-        let out = simrun::execute(&file, &tree, &case.source, case.lazy, &fns, &vars, &flag);
+        let (out, polls_seen, polls_after) = exec_with_flag(case.zst_flag, SimFlag::failing_from(k), &file, &tree, &case.source, case.lazy, &fns, &vars);
         let log = simrun::log_take();
         st.executions += 1;
         let at = match &cnt_log[poll_pos[(k - 1) as usize]] {
@@ -380,7 +432,7 @@ this program executes by construction require at least {}",
             }
         }
         // oracle 2
-        if flag.polls.get() != k || flag.polls_after_fail.get() != 0 {
+        if polls_seen != k || polls_after != 0 {
             return (
                 st,
                 Some(Found {
@@ -390,7 +442,7 @@ this program executes by construction require at least {}",
                         "flag failed at poll {} ({}) yet was polled {} more time(s) before execution returned",
                         k,
                         at,
-                        flag.polls.get().saturating_sub(k)
+                        polls_seen.saturating_sub(k)
                     ),
                 }),
             );
@@ -434,9 +486,8 @@ this program executes by construction require at least {}",
     // after all those interrupted runs on this thread and this loaded file, an uncancelled run
     // must still behave exactly like the first one
     if only_k.is_none() {
-        let flag = SimFlag::counting();
         simrun::log_clear();
-        let again = simrun::execute(&file, &tree, &case.source, case.lazy, &fns, &vars, &flag);
+        let (again, _, _) = exec_with_flag(case.zst_flag, SimFlag::counting(), &file, &tree, &case.source, case.lazy, &fns, &vars);
         let again_log = simrun::log_take();
         st.executions += 1;
         if again != cnt_out || again_log != cnt_log {
@@ -601,6 +652,7 @@ pub fn make_case(ctx: &ShardCtx, i: u64) -> Case {
             tick_rule: name == "thunks",
             k_cap,
             origin: format!("template:{}", name),
+            zst_flag: r.chance(1, 3),
         };
     }
     let cfg = gen::GenCfg {
@@ -634,6 +686,7 @@ pub fn make_case(ctx: &ShardCtx, i: u64) -> Case {
         tick_rule: true,
         k_cap,
         origin: "generated".to_string(),
+        zst_flag: r.chance(1, 3),
     }
 }
 
@@ -778,6 +831,9 @@ pub fn run_shard(ctx: &ShardCtx, rep: &mut Report) {
         }
         if case.min_polls.is_some() {
             rep.count("probe.template_cases");
+        }
+        if case.zst_flag {
+            rep.count("probe.zero_sized_flag_cases");
         }
         rep.run_hashes.push((i, st.transcript));
         if st.polls >= 2 {
